@@ -715,6 +715,12 @@ fn c20_pair(n: usize, a: (usize, usize), b: (usize, usize)) -> Option<String> {
         if (ca == cb) != (a == b) {
             return Some(format!("{} == {} is {}", ca, cb, ca == cb));
         }
+        // the comparison operators are the ones derived from the partial order
+        let exp_ops = (eo == Some(Ordering::Less), matches!(eo, Some(Ordering::Less) | Some(Ordering::Equal)), eo == Some(Ordering::Greater), matches!(eo, Some(Ordering::Greater) | Some(Ordering::Equal)));
+        let got_ops = (ca < cb, ca <= cb, ca > cb, ca >= cb);
+        if got_ops != exp_ops {
+            return Some(format!("{} vs {}: (<, <=, >, >=) = {:?} but the partial order (equal, or entirely before/after) gives {:?}", ca, cb, got_ops, exp_ops));
+        }
         if CharSet::inter_list(&[ca, cb]) != ei {
             return Some(format!("inter_list([{}, {}]) = {:?}, expected {:?}", ca, cb, CharSet::inter_list(&[ca, cb]), ei));
         }
